@@ -28,3 +28,15 @@ def check(case, ctx):
 
 def sample(case, res):
     return gen.render(case)
+
+
+def _wrong_sat(res):
+    d = res.detail or {}
+    return d.get("opensmt") == "sat" and d.get("reference") == "unsat"
+
+
+from . import sigs  # noqa: E402
+SIGNATURES = {
+    "ghost-vars-theory-combination-wrong-sat": lambda case, res: _wrong_sat(res) and sigs.ghost_combination_wrong_sat(case),
+    "uf-bool-argument-theory-combination-wrong-sat": lambda case, res: _wrong_sat(res) and sigs.boolarg_combination_wrong_sat(case),
+}
